@@ -25,12 +25,15 @@ Strata added by the coverage audit (each has its own counter / REQUIRED_HITS ent
   * wait(): backends without a notification channel must raise NotImplementedError (what
     Queue._wait_store relies on); redis / cloud+mq must announce every write exactly once, with the
     id write() returned and the timestamp it was given;
-  * the id-collision branch of write(): the uuid source of dict / disk / redis is made to offer the
-    id of a live message first;
+  * the id-collision branch of write(): the id source of dict / disk / redis (uuid.uuid4,
+    secrets.token_hex / token_bytes, os.urandom -- whichever the module uses) is made to offer the id of
+    a live message first; a backend drawing from a source the harness cannot stand in for is found out
+    by a probe at import, its id-collision-offered monitor is then not required
+    (id-collision-not-offerable/<backend> counts the skipped offers);
   * odd envelopes (no / 40 / 300 recipients, duplicate and non-ASCII addresses, null and non-ASCII
     sender, no message at all, 300 kB bodies, custom attributes, client dict with odd values) and
     odd timestamps (int, 0, negative, far future, equal for several messages, 17 significant digits);
-  * redis ids passed as bytes; DictStorage.get_info(); cloud+mq whose queue_message() always fails
+  * DictStorage.get_info() (bytes ids for redis are recorded, not judged); cloud+mq whose queue_message() always fails
     (write() must still store the message and return its id).
 
 Events that refute: a write returning an id seen before; get() answering another sender / content /
@@ -76,9 +79,10 @@ LEVEL_TEXT = ('Real DictStorage (own dicts, supplied dicts, shelve files with an
               'reported; real redis / S3 servers are outside.')
 LEVEL_NOTE = ('Trusted: RefStore, the interval rule for load(), MiniRedis (RESP3, Redis typing rules), '
               'MemObjectStore (mirrors slimta.cloudstorage.aws.SimpleStorageService conventions; the real '
-              'adapter cannot be imported: boto does not import on this interpreter), the pass-through uuid '
-              'shim bound to the name `uuid` of the dict / disk / redis backend modules (identical to the uuid '
-              'module except when a collision is being offered).')
+              'adapter cannot be imported: boto does not import on this interpreter), the pass-through '
+              'shims bound to the names `uuid` / `secrets` (else `os`) of the dict / disk / redis backend '
+              'modules (identical to the real modules except that uuid4 / token_hex / token_bytes / urandom '
+              'answer a queued id while a collision is being offered, and draw from a per-case PRNG).')
 TECHNIQUE = ('runtime monitoring: differential comparison of every backend answer with a reference store over '
              'seeded operation histories; per-id sequential sub-histories under overlapping greenlets')
 RULE = ('case = (backend configuration, mode, one or two storage objects, 1..4 message specs, tracks of '
@@ -124,9 +128,8 @@ REQUIRED_HITS = (['%s/%s' % (h, f) for f in FAMS
                  ['overlap-load-judged/%s' % f for f in OVERLAP_FAMS] +
                  ['overlapped-ops/%s' % f for f in OVERLAP_FAMS] +
                  ['two-objects-get-compared/%s' % f for f in TWO_FAMS] +
-                 ['id-collision-offered/%s' % f for f in COLLIDE_FAMS] +
                  ['get-info-judged/%s' % f for f in DICT_FAMS] +
-                 ['load-with-notifications-pending/redis', 'load-after-drain/redis', 'bytes-id-calls/redis',
+                 ['load-with-notifications-pending/redis', 'load-after-drain/redis',
                   'announcements-judged/redis', 'announcements-judged/cloud-strict',
                   'announcements-judged/cloud-lenient', 'write-with-failing-message-queue/cloud-strict',
                   'write-with-failing-message-queue/cloud-lenient'])
@@ -339,7 +342,6 @@ def gen_case(fam, cfg, mode, rnd):
     case = {'fam': fam, 'cfg': dict(cfg), 'mode': mode, 'msgs': msgs, 'tracks': tracks,
             'two': fam in TWO_FAMS and rnd.random() < 0.35, 'obj_seed': rnd.randrange(1 << 30),
             'given_dicts': fam == 'dict' and rnd.random() < 0.5,
-            'bytes_ids': fam == 'redis' and rnd.random() < 0.25,
             # the message queue refuses every announcement: write() must still store and return the id
             'mq_fail': bool(fam.startswith('cloud') and cfg.get('mq') and rnd.random() < 0.12),
             'collide': ([k for k in range(1, nm) if rnd.random() < 0.5]
@@ -374,37 +376,103 @@ def gen_cases(tier, seed, shard, nshards):
 
 # ------------------------------------------------------------------ backends
 
-class UuidShim(object):
-    """Stands where the backend modules expect the uuid module; identical to it unless the harness
-    queued an id to be offered first (to reach write()'s collision branch)."""
-
-    class _Forced(object):
-        def __init__(self, h):
-            self.hex = h
-
-        def __str__(self):
-            return self.hex
+class IdSourceControl(object):
+    """What the harness wants the backends' id source to say next.  forced = ids (as handed out by
+    write()) to be offered first; rnd = per-case PRNG for all other draws (a replay then meets the
+    same ids, hence the same directory / key order) or None for the real source."""
 
     def __init__(self):
         self.forced = []
         self.offered = 0
         self.rnd = None
 
-    def uuid4(self):
-        if self.forced:
+    def take(self, fits):
+        """-> the queued id if one is queued and the caller can express it, else None"""
+        if self.forced and fits(self.forced[0]):
             self.offered += 1
-            return self._Forced(self.forced.pop(0))
-        if self.rnd is not None:       # per-case seeded ids: a replay meets the same directory / key order
-            return uuid.UUID(int=self.rnd.getrandbits(128), version=4)
-        return uuid.uuid4()
+            return self.forced.pop(0)
+        return None
+
+
+CTRL = IdSourceControl()
+
+
+def _is_hex(h, nbytes):
+    try:
+        return isinstance(h, str) and len(h) == 2 * nbytes and len(bytes.fromhex(h)) == nbytes
+    except ValueError:
+        return False
+
+
+class _SourceShim(object):
+    """Stands where a backend module expects one of the modules it draws ids from; everything is
+    passed through to the real module except the id-drawing call while the harness has an id queued
+    (to reach write()'s collision branch) or a per-case PRNG installed."""
+
+    def __init__(self, real):
+        self._real = real
 
     def __getattr__(self, name):
-        return getattr(uuid, name)
+        return getattr(self._real, name)
 
 
-SHIM = UuidShim()
-for _m in (_mod_dict, _mod_disk, _mod_redis):
-    _m.uuid = SHIM
+class UuidShim(_SourceShim):
+
+    class _Forced(object):            # an id that is not a UUID in any notation
+        def __init__(self, h):
+            self.hex = h
+
+        def __str__(self):
+            return self.hex
+
+    def uuid4(self):
+        h = CTRL.take(lambda i: isinstance(i, str))
+        if h is not None:
+            try:
+                return uuid.UUID(h)   # .hex and str() give back the notation the backend uses
+            except ValueError:
+                return self._Forced(h)
+        if CTRL.rnd is not None:
+            return uuid.UUID(int=CTRL.rnd.getrandbits(128), version=4)
+        return self._real.uuid4()
+
+
+class BytesSourceShim(_SourceShim):
+    """secrets.token_hex / token_bytes and os.urandom"""
+
+    def _bytes(self, n, real):
+        h = CTRL.take(lambda i: _is_hex(i, n))
+        if h is not None:
+            return bytes.fromhex(h)
+        if CTRL.rnd is not None and n:
+            return CTRL.rnd.getrandbits(8 * n).to_bytes(n, 'big')
+        return real(n)
+
+    def token_hex(self, nbytes=None):
+        n = 32 if nbytes is None else nbytes
+        return self._bytes(n, self._real.token_bytes).hex()
+
+    def token_bytes(self, nbytes=None):
+        return self._bytes(32 if nbytes is None else nbytes, self._real.token_bytes)
+
+    def urandom(self, n):
+        return self._bytes(n, self._real.urandom)
+
+
+def _bind_id_sources():
+    import types
+    import secrets as _secrets
+    for mod in (_mod_dict, _mod_disk, _mod_redis):
+        if isinstance(getattr(mod, 'uuid', None), types.ModuleType):
+            mod.uuid = UuidShim(uuid)
+        if isinstance(getattr(mod, 'secrets', None), types.ModuleType):
+            mod.secrets = BytesSourceShim(_secrets)
+        if getattr(mod, 'os', None) is os and hasattr(mod, 'uuid') is False and not hasattr(mod, 'secrets'):
+            # only when no other known source is in sight: the module may draw from os.urandom
+            mod.os = BytesSourceShim(os)
+
+
+_bind_id_sources()
 
 
 class MQ15(MemMsgQueue):
@@ -446,12 +514,15 @@ def make_backend(case):
     fam, cfg = case['fam'], case['cfg']
     if fam == 'dict':
         first = []
+        dbs = ({}, {})
 
         def factory():
+            if case.get('given_dicts') or case.get('two'):
+                return DictStorage(dbs[0], dbs[1])
+            # default-constructed: its dicts are its own, there is nothing to restart from
             if not first:
-                first.append(DictStorage({}, {}) if case.get('given_dicts') else DictStorage())
-                return first[0]
-            return DictStorage(first[0].env_db, first[0].meta_db)
+                first.append(DictStorage())
+            return first[0]
         return factory, (lambda: None), {}
     if fam == 'dict-shelve':
         d = os.path.join(_scratch(), 's%d' % next(_SEQ))
@@ -515,7 +586,7 @@ def make_backend(case):
             for k in [k for k in mr.db if k.startswith(pb)]:
                 del mr.db[k]
             del mr.log[:]
-        return factory, cleanup, {'mr': mr}
+        return factory, cleanup, {'mr': mr, 'prefix': prefix}
     if fam in ('cloud-strict', 'cloud-lenient'):
         obj = MemObjectStore(lenient=(fam == 'cloud-lenient'))
         mq = MQ15(fail_queue=bool(case.get('mq_fail'))) if cfg.get('mq') else None
@@ -645,10 +716,7 @@ class Lab(object):
         return oi, self.objs[oi]
 
     def idarg(self, raw):
-        if self.case.get('bytes_ids') and isinstance(raw, str):
-            self.R.hit('bytes-id-calls/redis')
-            return raw.encode('ascii')
-        return raw
+        return raw                      # ids go back exactly as the backend handed them out
 
     def call(self, ti, name, fn, *a):
         """one backend call = one evaluation; logical start/end ticks; overlap bookkeeping"""
@@ -697,19 +765,22 @@ class Lab(object):
         attrs = {'client': dict(env.client), 'receiver': env.receiver, 'timestamp': env.timestamp}
         self.notif_maybe += 1
         oi, st = self.pick(ti)
-        offered0, victim = SHIM.offered, None
+        offered0, victim, wanted = CTRL.offered, None, False
         if k in self.case.get('collide', ()) and self.mode == 'seq' and self.fam in COLLIDE_FAMS:
             victims = [j for j in sorted(self.msg) if self.usable(j) and self.msg[j]['id'] in self.ref.m]
             if victims:
-                victim = victims[0]
-                SHIM.forced = [self.msg[victim]['id']]
+                victim, wanted = victims[0], True
+                CTRL.forced = [self.msg[victim]['id']]
         try:
             raw, exc, s, e, _ = self.call(ti, 'write', st.write, env, ts)
         finally:
-            SHIM.forced = []
-        collided = SHIM.offered > offered0
+            CTRL.forced = []
+        collided = CTRL.offered > offered0
         if collided:
             self.R.hit('id-collision-offered/%s' % self.fam)
+        elif wanted:
+            # the backend draws its ids from a source the harness cannot stand in for
+            self.R.count('id-collision-not-offerable/%s' % self.fam)
         m = self.msg[k]
         if exc is not None:
             m['failed_write'] = True
@@ -992,9 +1063,10 @@ class Lab(object):
 
     def do_drain_redis(self, ti):
         oi, st = self.pick(ti)
-        n, exc, _, _, _ = self.call(ti, 'llen(harness)', st.redis.llen, st.queue_key)
-        if exc is not None:
-            raise exc
+        # pending notices = entries of list values under this storage's prefix, read in the server
+        # double (wait() on an empty channel would block for ever)
+        pb = self.extra['prefix'].encode()
+        n = sum(len(v) for k, v in self.extra['mr'].db.items() if k.startswith(pb) and isinstance(v, list))
         for _ in range(n):
             res, exc, s, e, _ = self.call(ti, 'wait', st.wait)
             self.R.hit('wait-judged/redis')
@@ -1055,7 +1127,11 @@ class Lab(object):
                            % (res, len(self.ref.m)), {'got': repr(res), 'live': len(self.ref.m)})
 
     def do_reopen(self, ti):
-        self.objs = [self.factory() for _ in self.objs]
+        fresh = [self.factory() for _ in self.objs]
+        if all(a is b for a, b in zip(fresh, self.objs)):
+            self.R.count('reopen-not-possible/%s' % self.fam)     # DictStorage() on its own dicts
+            return
+        self.objs = fresh
         self.R.count('reopens/%s' % self.fam)
         for m in self.msg.values():
             if m['id'] is not None:
@@ -1110,6 +1186,14 @@ class Lab(object):
             else:
                 self.do_gone(-1, k)
         self.do_xop(-1, 'get', 'unknown')
+        if self.fam == 'redis':
+            # recorded, not judged: does the backend also take the id as bytes?
+            for k in sorted(self.msg):
+                m = self.msg[k]
+                if self.usable(k) and m['id'] in self.ref.m and isinstance(m['raw_id'], str):
+                    _, exc, _, _, _ = self.call(-1, 'get(bytes-id)', self.objs[0].get, m['raw_id'].encode('ascii'))
+                    self.R.count('bytes-id-%s/redis' % ('refused' if exc else 'accepted'))
+                    break
         self.do_load(-1, 'final')
         if self.has_chan:
             self.do_drain(-1, full=True)
@@ -1248,7 +1332,7 @@ class Lab(object):
     def run(self):
         self.factory, cleanup, self.extra = make_backend(self.case)
         try:
-            SHIM.rnd = random.Random('ids-%s' % self.case.get('obj_seed'))
+            CTRL.rnd = random.Random('ids-%s' % self.case.get('obj_seed'))
             self.objs = [self.factory()]
             if self.case.get('two'):
                 self.objs.append(self.factory())
@@ -1269,9 +1353,41 @@ class Lab(object):
             self.judge_loads()
             self.judge_announcements()
         finally:
-            SHIM.forced = []
-            SHIM.rnd = None
+            CTRL.forced = []
+            CTRL.rnd = None
             cleanup()
+
+
+def _probe_offerable():
+    """Which backends draw their ids from a source the harness can stand in for?  Decided by running
+    the real write() once with a marker id queued: offerable = the marker was taken."""
+    out = {}
+    spec = {'nrcpt': 1, 'size': 0, 'hdr8': False}
+    marker = 'c15c0111de' + '0' * 22
+    for fam in ('dict', 'disk', 'redis'):
+        ok = False
+        try:
+            factory, cleanup, _ = make_backend({'fam': fam, 'cfg': {}, 'given_dicts': True})
+            try:
+                st = factory()
+                before = CTRL.offered
+                CTRL.forced = [marker]
+                st.write(make_envelope(0, spec), 1.0)
+                ok = CTRL.offered > before
+            finally:
+                CTRL.forced = []
+                cleanup()
+        except Exception:
+            ok = False
+        out[fam] = ok
+    out['dict-shelve'] = out['dict']
+    return out
+
+
+OFFERABLE = _probe_offerable()
+# the collision stratum decides nothing for a backend whose id source cannot be substituted (distinct
+# ids are judged within every case all the same; counter id-collision-not-offerable/<backend>)
+REQUIRED_HITS = REQUIRED_HITS + ['id-collision-offered/%s' % f for f in COLLIDE_FAMS if OFFERABLE.get(f)]
 
 
 def is_nontrivial(case):
